@@ -74,9 +74,28 @@ package keeper
 //@ modifies reporter.*, staking.*, bank.bal
 //@ ensures [only_pool_accounts_touched] forall a addr :: a != module("bonded_tokens_pool") && a != module("not_bonded_tokens_pool") ==> bank.bal[a] == old(bank.bal[a])
 
+// tsum(s, n): total of the first n per-backer records of s; frec(h): the fee-from-stake record of dispute h.
+//@ define tsum(s, n) = sum j in [0, n) :: s[j].Amount
+//@ define frec(h) = reporter.FeePaidFromStake[bytes(h)]
+
 //@ func (k Keeper).FeefromReporterStake(ctx, reporterAddr, amt, hashId) (err)
-//@ trusted
-//@ modifies reporter.*, staking.*, bank.bal
+//@ uses sum_congruence
+//@ requires [fee_positive] amt > 0
+//@ requires [validators_have_delegator_shares] forall v bytes :: has(staking.validators, v) ==> staking.validators[v].DelegatorShares > 0
+//@ modifies reporter.FeePaidFromStake, staking.*, bank.bal
+//@ ensures [first_payment_records_sum_to_the_amount_taken] err == nil && !old(has(reporter.FeePaidFromStake, bytes(hashId))) ==> tsum(frec(hashId).TokenOrigins, len(frec(hashId).TokenOrigins)) == frec(hashId).Total
+//@ ensures [coins_leave_the_bonded_pool_by_the_amount_recorded] err == nil ==> has(reporter.FeePaidFromStake, bytes(hashId)) && bank.bal[module("dispute")] == old(bank.bal[module("dispute")]) + frec(hashId).Total - old(get0(reporter.FeePaidFromStake, bytes(hashId)).Total) && bank.bal[module("bonded_tokens_pool")] == old(bank.bal[module("bonded_tokens_pool")]) - (frec(hashId).Total - old(get0(reporter.FeePaidFromStake, bytes(hashId)).Total))
+//@ ensures [amount_recorded_is_what_the_staking_module_unbonded] err == nil ==> frec(hashId).Total - old(get0(reporter.FeePaidFromStake, bytes(hashId)).Total) == retsum(Unbond, 0)
+//@ ensures [only_the_bonded_pool_and_the_dispute_escrow_are_touched] forall a addr :: a != module("dispute") && a != module("bonded_tokens_pool") ==> bank.bal[a] == old(bank.bal[a])
+//@ loop 0 "for ; iter.Valid(); iter.Next()"
+//@ loop 1 "for _, selectors := range selectorsList"
+//@ loop 1 invariant [records_sum_to_the_tracked_total] tsum(feeTracker, len(feeTracker)) == totalTrackedAmount && totalTrackedAmount >= 0 && forall j in [0, len(feeTracker)) :: allocated(feeTracker[j])
+//@ loop 1 invariant [bank_untouched_so_far] bank.bal == old(bank.bal) && reporter.FeePaidFromStake == old(reporter.FeePaidFromStake)
+//@ loop 1 invariant [tracked_total_is_what_was_unbonded] totalTrackedAmount == retsum(Unbond, 0)
+//@ loop 2 "for _, info := range selectors.selectorInfo"
+//@ loop 2 invariant [records_sum_to_the_tracked_total] tsum(feeTracker, len(feeTracker)) == totalTrackedAmount && totalTrackedAmount >= 0 && forall j in [0, len(feeTracker)) :: allocated(feeTracker[j])
+//@ loop 2 invariant [bank_untouched_so_far] bank.bal == old(bank.bal) && reporter.FeePaidFromStake == old(reporter.FeePaidFromStake)
+//@ loop 2 invariant [tracked_total_is_what_was_unbonded] totalTrackedAmount == retsum(Unbond, 0)
 
 //@ func (k Keeper).EscrowReporterStake(ctx, reporterAddr, power, height, amt, queryId, hashId) (err)
 //@ trusted
